@@ -1211,7 +1211,7 @@ SITF = "src/phreeqcpp/sit.cpp"
 def unit_gammas_specific(which, twin=False):
     """gammas_pz / gammas_sit (specific-interaction databases): the log gamma of AQUEOUS species is not computed here - it is the solver's
     unknown, tied to the model value lg_pitzer by its own residual row - so no aqueous species is written; surface species get
-    log10(equiv / sites) (equiv = 1 for CD-MUSIC in gammas_pz), water gets log10(a_w * gfw_water); exchange species (only when an exchanger
+    log10(equiv / sites) with equiv = 1 (mole fraction) for CD-MUSIC surfaces and the species' site coefficient otherwise, water gets log10(a_w * gfw_water); exchange species (only when an exchanger
     is present): 0 for the master species, else log10(|equiv| / CEC) (0 when equiv = 0 or CEC <= 0) plus, with -pitzer_exchange_gammas,
     sum over the non-exchanger reactants of coef * log gamma of that reactant."""
     rel, q = {"pz": (PITZ, "Phreeqc::gammas_pz"), "sit": (SITF, "Phreeqc::gammas_sit")}[which]
@@ -1250,8 +1250,13 @@ def unit_gammas_specific(which, twin=False):
             if len(wl) != 1 or len(alkv) != 1:
                 r.add("surface.writes_lg_once_with_sites_from_the_scan", FAILED, "symex", 0, ""); continue
             tys = [e.result for e in U.iter_events(s) if e.name.endswith("Get_type")]
-            def body(dec, hyps, s=s, sp=sp, lg=wl[0], alk=alkv[0], tys=tys, F=F):
-                cd = bool(tys) and dec(tm.eq(tys[0], tm.num(ev["CD_MUSIC"], "I")))
+            # the type of the surface in use: the term the code asks for, or (when the code does not ask) the same accessor chain built here,
+            # so that a missing CD-MUSIC case is compared with the specification in the CD-MUSIC case instead of being skipped
+            styp = tys[0] if tys else tm.app("call:Get_type", (tm.app("call:Get_surface_ptr", (tm.app("fld:use", (THIS,), "P"),), "P"),), "I")
+            def body(dec, hyps, s=s, sp=sp, lg=wl[0], alk=alkv[0], styp=styp, F=F):
+                cd = dec(tm.eq(styp, tm.num(ev["CD_MUSIC"], "I")))
+                if twin and which == "sit":
+                    cd = not cd
                 pos = dec(tm.lt(tm.num(0), alk))
                 eq_ = tm.num(1) if cd else F("equiv")
                 spec = log10_t(eq_ / alk) if pos else tm.num(0)
@@ -1346,13 +1351,12 @@ def unit_gammas_specific(which, twin=False):
             bad = iter_frame(s, {"lg": sp, "dg": sp})
             r.add("sum.frame_only_lg_dg_of_this_species#%d" % len(r.obligations), DISCHARGED if not bad else FAILED, "symex", 0, repr(bad)[:200], kind="frame")
     need = {"water", "surface.other.sites>0", "surface.other.sites<=0", "master", "sum", "nosum", "has", "hasnot"} | {("untouched", g) for g in (0, 1, 2, 3, 4, 5, 7, 8)}
-    if which == "pz":
-        need.add("surface.CD_MUSIC.sites>0")
+    need.add("surface.CD_MUSIC.sites>0")
     missing = need - set(cov)
     r.add("reach.cases", DISCHARGED if not missing and nadd and nskip and len(alk_scans) == 2 and len(sum_scans) == 1 else UNDECIDED, "symex", 0, "missing %r scans %d/%d add/skip %d/%d" % (sorted(map(str, missing)), len(alk_scans), len(sum_scans), nadd, nskip), kind="vacuity")
     r.assumptions += ["lg of aqueous species is set by the solver (PITZER_GAMMA unknowns, unit C16.residuals.PITZER_GAMMA_row) from lg_pitzer computed by pitzer() / sit()",
-                      "token scans replaced by their frame and checked by their own iteration contracts", "dg not checked (Jacobian)"] + (
-                      ["gammas_sit has no CD-MUSIC case for surface species (gammas and gammas_pz use equiv = 1 there): reported as an observation, not demanded"] if which == "sit" else [])
+                      "token scans replaced by their frame and checked by their own iteration contracts", "dg not checked (Jacobian)",
+                      "the surface type is use.Get_surface_ptr()->Get_type() (functional accessors); the CD-MUSIC convention is demanded of both functions (gammas_sit: repaired in /repo 5428158b)"]
     return r
 
 
